@@ -310,8 +310,15 @@ def single_state_measures(run, rng, C, s, quick):
                     if alpha != int(alpha) and not s.pure and not C.heavy(n, "renyi", 6):
                         continue
                     tr_a = sum(e ** alpha for e in ev if e > 1e-15)
-                    C.value("renyi_entropy", f"renyi_entropy:{tag}", C.call("renyi_entropy", lambda: qi.renyi_entropy(x, alpha, base=base), [x]),
-                            logb(tr_a, base) / (1 - alpha), 1e-7, f"{tag} alpha={alpha} base={base}", rp)
+                    got_r = C.call("renyi_entropy", lambda: qi.renyi_entropy(x, alpha, base=base), [x])
+                    want_r = logb(tr_a, base) / (1 - alpha)
+                    singular = alpha != int(alpha) and min(ev) < 1e-12
+                    if singular and not isinstance(got_r, Exception) and 1e-7 * max(1.0, abs(want_r)) < abs(complex(got_r) - want_r) <= 1e-3:
+                        # fractional power of a SINGULAR matrix (scipy fractional_matrix_power): off by ~1e-5 with an imaginary
+                        # part; a precision finding of its own, so that a wrong value (> 1e-3) of the same class is still reported
+                        C.value("renyi_entropy", "renyi_entropy:fractional_power_of_singular_state", got_r, want_r, 1e-7, f"{tag} alpha={alpha} base={base}", rp)
+                    else:
+                        C.value("renyi_entropy", f"renyi_entropy:{tag}", got_r, want_r, 1e-7, f"{tag} alpha={alpha} base={base}", rp)
                 C.value("renyi_entropy", f"renyi_entropy:alpha=1:{tag}", C.call("renyi_entropy", lambda: qi.renyi_entropy(x, 1.0, base=base), [x]), want, 1e-7, f"alpha=1 {tag}", rp)
                 C.value("renyi_entropy", f"renyi_entropy:alpha=inf:{tag}", C.call("renyi_entropy", lambda: qi.renyi_entropy(x, np.inf, base=base), [x]),
                         -logb(max(ev), base), 1e-7, f"alpha=inf {tag}", rp)
@@ -464,8 +471,13 @@ def pair_measures(run, rng, C, a, b, quick):
                         C.call("relative_von_neumann_entropy", lambda: qi.relative_von_neumann_entropy(x, y, base=base, check_hermitian=ch), [x, y]), rel, 1e-6, f"{tag} base={base}", rp)
             for alpha in (0.5, 2) if quick else (0.3, 0.5, 2, 3):
                 tr_ = float(np.real(np.trace(psd_pow(A, alpha) @ psd_pow(B, 1 - alpha))))
-                C.value("relative_renyi_entropy", f"relative_renyi_entropy:{tag}", C.call("relative_renyi_entropy", lambda: qi.relative_renyi_entropy(x, y, alpha, base=base), [x, y]),
-                        logb(tr_, base) / (alpha - 1), 1e-6, f"{tag} alpha={alpha} base={base}", rp)
+                got_r = C.call("relative_renyi_entropy", lambda: qi.relative_renyi_entropy(x, y, alpha, base=base), [x, y])
+                want_r = logb(tr_, base) / (alpha - 1)
+                singular = alpha != int(alpha) and (min(eva) < 1e-12 or min(evb) < 1e-12)
+                if singular and not isinstance(got_r, Exception) and not (math.isinf(want_r) or math.isnan(want_r)) and 1e-6 * max(1.0, abs(want_r)) < abs(complex(got_r) - want_r) <= 1e-3:
+                    C.value("relative_renyi_entropy", "relative_renyi_entropy:fractional_power_of_singular_state", got_r, want_r, 1e-6, f"{tag} alpha={alpha} base={base}", rp)
+                else:
+                    C.value("relative_renyi_entropy", f"relative_renyi_entropy:{tag}", got_r, want_r, 1e-6, f"{tag} alpha={alpha} base={base}", rp)
         from qibo.backends import NumpyBackend
         be = NumpyBackend()
         out = C.call("relative_tsallis_entropy", lambda: qi.relative_tsallis_entropy(x, y, 1.5), [x, y])
